@@ -513,6 +513,15 @@ def run(ctx: Ctx) -> None:
     # segment order does not matter: _segment splits on either order
     sg = m.method("Parser", "_segment", own=True)
     from ..flowspec import compare
+    # comments never reach the declarations: the sanitiser keeps, of every line, exactly what stands in front of its first '#'
+    from ..parsershape import KEEP, TEXT, sanitize_form
+    sa_f, form = sanitize_form(m)
+    r.check(form is not None and form["text"] == TEXT and form["keep"] in KEEP and form["iter"] == "enumerate(P0.program.splitlines())", "sanitize", sa_f.loc(),
+            "declarations with a trailing comment are no longer cut at the first '#': the sanitized program is not "
+            f"[(n, line.split('#', 1)[0].strip()) for every line that has something before its comment] (recovered form: {form})")
+    # `.zero n` and the padding behind short variables are never written: they rely on a memory that a reload really empties
+    from ..resetrule import check_reset
+    check_reset(ctx, r, "Memory", fields={"memory_file": "empty"})
     compare(r, m, sg, SEGMENT_REF, "segments", keep=lambda k, t: not (k == "call" and t.endswith(".get('directive')")), what="_segment splits the token list at the .data / .text directives in either order "
             "(a repeated or unknown directive is a ParserDirectiveException)")
     r.floor(6)
